@@ -30,6 +30,9 @@ pub struct Profile {
     pub small_chunks_pct: u64,
     pub final_flush: bool,
     pub big_payloads: bool,
+    pub flush_heavy: bool,
+    /// percent of runs that use an eager-worker schedule (worker runs almost immediately)
+    pub eager_worker_pct: u64,
 }
 
 #[derive(Clone, Copy, Debug, PartialEq, Eq)]
@@ -56,6 +59,8 @@ impl Profile {
             small_chunks_pct: 85,
             final_flush: true,
             big_payloads: true,
+            flush_heavy: false,
+            eager_worker_pct: 15,
         }
     }
 }
@@ -492,7 +497,7 @@ pub fn gen_spec(prop: &str, run_seed: u64, p: &Profile) -> Spec {
     let w_purge = if p.purge_heavy { w(&mut rng, &[3, 5, 8]) } else { w(&mut rng, &[0, 1, 2, 3]) };
     let w_commit = w(&mut rng, &[0, 1, 2]);
     let w_ud = w(&mut rng, &[0, 1, 1]);
-    let w_flush = w(&mut rng, &[1, 3, 6]);
+    let w_flush = if p.flush_heavy { w(&mut rng, &[6, 10, 14]) } else { w(&mut rng, &[1, 3, 6]) };
     let w_flush_none = w(&mut rng, &[0, 0, 1]);
     let w_read = w(&mut rng, &[0, 1, 3]);
     let w_stat = w(&mut rng, &[0, 1]);
@@ -504,7 +509,7 @@ pub fn gen_spec(prop: &str, run_seed: u64, p: &Profile) -> Spec {
     let w_readers = if p.readers { w(&mut rng, &[1, 2]) } else { 0 };
     let w_idle = if p.wait_idle { w(&mut rng, &[0, 1, 2]) } else { 0 };
     let w_quiesce = w(&mut rng, &[0, 0, 1]);
-    let wait_pct = *rng.pick(&[20u64, 50, 80, 100]);
+    let wait_pct = if p.flush_heavy { *rng.pick(&[70u64, 90, 100]) } else { *rng.pick(&[20u64, 50, 80, 100]) };
     let weights = [
         w_append, w_vote, w_trunc, w_purge, w_commit, w_ud, w_flush, w_flush_none, w_read, w_stat, w_dump, w_restart, w_race, w_rej, w_host,
         w_readers, w_idle, w_quiesce,
@@ -559,8 +564,52 @@ pub fn gen_spec(prop: &str, run_seed: u64, p: &Profile) -> Spec {
     let faults = gen_faults(&mut rng, p.faults, nwrites.max(6));
     let sched = match rng.below(10) {
         0 => Sched::Default,
-        _ => Sched::Prng { seed: rng.next(), policy: gen_policy(&mut rng) },
+        _ => {
+            let mut policy = gen_policy(&mut rng);
+            if rng.chance(p.eager_worker_pct) {
+                policy.p_switch = *rng.pick(&[60u8, 80, 95]);
+                policy.w_worker = 32;
+                policy.starve_pm = 0;
+            }
+            Sched::Prng { seed: rng.next(), policy }
+        }
     };
     let flush_batch = *rng.pick(&[1usize, 2, 3, 1024, 1024]);
     Spec { prop: prop.to_string(), run_seed, cfg, ops, sched, faults, flush_batch, lower_term_reappend: used_lower }
+}
+
+/// A short workload to run on a recovered store (C05): appends, vote, commit, purge, flush+ack,
+/// a clean restart, more appends, flush+ack. Monotone terms, starting from `model`.
+pub fn gen_continuation(rng: &mut Rng, model: &Model) -> Vec<Op> {
+    let max_term = model.entries.values().map(|e| e.0 .0).max().unwrap_or(0).max(model.st.last.map(|l| l.0).unwrap_or(0)).max(model.st.purged.map(|l| l.0).unwrap_or(0));
+    let mut g = G { rng, m: model.clone(), next_tag: 900_000, cur_term: max_term.saturating_add(1), max_term: max_term.saturating_add(1), lower_term: false, used_lower_term: false, big: false, removed_term: None };
+    let mut ops = vec![];
+    ops.push(g.gen_append());
+    if g.rng.chance(50) {
+        ops.push(g.gen_vote());
+    }
+    if g.rng.chance(50) {
+        if let Some(o) = g.gen_commit() {
+            ops.push(o);
+        }
+    }
+    if g.rng.chance(40) {
+        if let Some(o) = g.gen_truncate() {
+            ops.push(o);
+        }
+    }
+    ops.push(g.gen_append());
+    if g.rng.chance(60) {
+        if let Some(o) = g.gen_purge(true) {
+            ops.push(o);
+        }
+    }
+    ops.push(Op::Flush { wait: true });
+    let mut cfg = Cfg::plain();
+    cfg.chunk_max_records = Some(*g.rng.pick(&[1usize, 2, 3, 5, 1000]));
+    ops.push(Op::Restart(cfg));
+    ops.push(g.gen_append());
+    ops.push(Op::Flush { wait: true });
+    ops.push(Op::Read(0, u64::MAX));
+    ops
 }
